@@ -32,6 +32,7 @@ type Job struct {
 	StopAtFirst bool
 	ValidatePaths int // number of completed paths to hand to native validation
 	Note string
+	RandomModels int // random assignments tried before a feasibility query goes to the solver (sat side only)
 	Cross string // back end used for cross-checking (default z3 4.8.12 for z3-new primaries)
 	CrossTimeout time.Duration
 }
@@ -163,6 +164,8 @@ type Engine struct {
 	models    []map[string]uint64 // models known to satisfy the current path condition (counterexample cache)
 	pool      []map[string]uint64 // recent models from earlier paths; re-validated against each new path condition
 	cacheHits int
+	ranges    map[string][2]int64 // IntRange bounds of inputs (for random model sampling)
+	sampleHits int
 	shadow    map[*Value]*shadow
 	cellName  map[*Value]string
 	curSite   string
@@ -284,6 +287,7 @@ func (e *Engine) runPath(fn *ssa.Function) (cont bool) {
 	e.errObjs = map[*ssa.Global]Value{}
 	e.lemmaDone = map[int]bool{}
 	e.models = append([]map[string]uint64{}, e.pool...)
+	e.ranges = map[string][2]int64{}
 	e.cellName = map[*Value]string{}
 	e.numStr = map[string]*Term{}
 	e.th = nil
@@ -425,6 +429,13 @@ func (e *Engine) feasible(c *Term) bool {
 			}
 		}
 	}
+	if e.job.RandomModels > 0 {
+		if m := e.sampleModel(c, e.job.RandomModels); m != nil {
+			e.sampleHits++
+			e.keepModel(m)
+			return true
+		}
+	}
 	e.flush()
 	e.solver.Push()
 	e.emitLemmas(c)
@@ -444,14 +455,7 @@ func (e *Engine) feasible(c *Term) bool {
 			}
 		}
 		if ok {
-			if len(e.models) >= 8 {
-				e.models = e.models[1:]
-			}
-			e.models = append(e.models, m)
-			if len(e.pool) >= 8 {
-				e.pool = e.pool[1:]
-			}
-			e.pool = append(e.pool, m)
+			e.keepModel(m)
 		}
 	}
 	e.solver.Pop()
@@ -897,4 +901,70 @@ func (e *Engine) knownFor(label string) ([]string, map[string]*Term) {
 	}
 	sort.Strings(ids)
 	return ids, conds
+}
+
+func (e *Engine) keepModel(m map[string]uint64) {
+	if len(e.models) >= 8 {
+		e.models = e.models[1:]
+	}
+	e.models = append(e.models, m)
+	if len(e.pool) >= 8 {
+		e.pool = e.pool[1:]
+	}
+	e.pool = append(e.pool, m)
+}
+
+// sampleModel tries n random assignments of the path's inputs; it returns one
+// that satisfies pc ∧ c, or nil. Purely an accelerator for the satisfiable
+// side of feasibility queries: "no sample found" proves nothing and the query
+// then goes to the solver.
+func (e *Engine) sampleModel(c *Term, n int) map[string]uint64 {
+	for k := 0; k < n; k++ {
+		m := map[string]uint64{}
+		for _, in := range e.inputs {
+			if in.term.Op != OpVar {
+				continue
+			}
+			var v uint64
+			if r, ok := e.ranges[in.Name]; ok {
+				span := uint64(r[1]-r[0]) + 1
+				switch e.rng.Intn(4) {
+				case 0:
+					v = uint64(r[0]) + uint64(e.rng.Intn(4))%span
+				case 1:
+					v = uint64(r[1]) - uint64(e.rng.Intn(4))%span
+				default:
+					if span == 0 {
+						v = e.rng.Uint64()
+					} else {
+						v = uint64(r[0]) + e.rng.Uint64()%span
+					}
+				}
+			} else {
+				v = e.rng.Uint64()
+				if in.W >= 8 && e.rng.Intn(3) == 0 {
+					v >>= uint(e.rng.Intn(in.W))
+				}
+			}
+			m[in.Name] = v & mask(in.W)
+			if in.W == 0 {
+				m[in.Name] = v & 1
+			}
+		}
+		memo := map[int]uint64{}
+		if e.st.Eval(c, m, memo) == 0 {
+			continue
+		}
+		ok := true
+		for _, p := range e.pc {
+			if e.st.Eval(p, m, memo) == 0 {
+				ok = false
+				break
+			}
+		}
+		if ok {
+			return m
+		}
+	}
+	return nil
 }
